@@ -27,11 +27,21 @@ theorem decrypt_consults_prefix (P : Prims) {ι : Type} (E : GoTie.DecryptEnv P 
     Extracted.age_Decrypt E.D E.U GoTie.errorsIsEq E.mac E.newReader E.key file (pre ++ [i]) :=
   GoTie.decrypt_consults_prefix P E file pre i post hdr rest hp hi U' hU'
 
+/-- the translated `age.Decrypt` returns what the model's `decryptInit` returns, for EVERY file and identity list:
+    the reader made from the model's stream key and payload; or, when the model says identity number `idx` failed
+    (`.fatal idx`), no reader and the very error that identity's `Unwrap` (`E.U`) returned on the header's stanzas —
+    neither nil nor `ErrIncorrectIdentity`; or no reader and the error value of the model's error class.
+    `DecryptEnv.hU` requires an identity that succeeds to return a NON-EMPTY key (the translation identifies nil and
+    empty slices), so this covers identity lists none of whose members answers with an empty key; the module's SSH
+    identities do on hand-built stanzas — that corner is the model's `endsNonNil`, tied by the correspondence cases
+    `fksize/*`. -/
 theorem decrypt_tie (P : Prims) {ι : Type} (E : GoTie.DecryptEnv P ι) (file : Bytes) (ids : List ι) :
     ∃ res, Extracted.age_Decrypt E.D E.U GoTie.errorsIsEq E.mac E.newReader E.key file ids = .ok res ∧
       match (decryptInit P (ids.map E.idOf) file).1 with
       | .ok (k, payload) => res = (k ++ payload, none)
-      | .error (.fatal _) => res.2 ≠ none ∧ res.2 ≠ Extracted.age_ErrIncorrectIdentity
+      | .error (.fatal idx) => ∃ hdr payload j r, Format.parse file = .ok (hdr, payload) ∧ ids[idx]? = some j ∧
+          E.U j (hdr.stanzas.map GoTie.toGoStanza) = .ok r ∧ r.2 ≠ none ∧ r.2 ≠ Extracted.age_ErrIncorrectIdentity ∧
+          res = ([], r.2)
       | .error e => res = ([], GoTie.decryptErr e none) :=
   GoTie.decrypt_tie P E file ids
 
